@@ -441,6 +441,17 @@ def check_pass(layers):
     InsertAccOp("snax_gemmx").apply(xctx, mod)
     refs = [(tuple(op.get_static_pattern_bounds()), [p.data for p in op.patterns.data])
             for op in mod.walk() if isinstance(op, dart.OperationOp)]
+    # the iteration box of the ORIGINAL operation, stated independently of get_static_pattern_bounds() (which the pass
+    # itself uses to build the initial schedule): iteration dim perm[0] runs over m, perm[1] over n, perm[2] over k
+    if len(refs) == len(layers):
+        for i, (l, (rb, _)) in enumerate(zip(layers, refs)):
+            if "_perm" in l:
+                want = [0, 0, 0]
+                for q, size in zip(l["_perm"], (l["m"], l["n"], l["k"])):
+                    want[q] = size
+                if [int(b) for b in rb] != want:
+                    return [{"what": "operation_bounds", "layers": layers, "klass": None,
+                             "detail": {"op_index": i, "get_static_pattern_bounds": [int(b) for b in rb], "operand_shapes_imply": want}}]
     try:
         DartSchedulerPass().apply(xctx, mod)
         mod.verify()
